@@ -412,6 +412,46 @@ def o_datetime(im, a, b):
     return None if r == want else (want, r)
 
 
+def o_same_type(im, a, b):
+    """Two values of one type, one level of the definition unfolded: strings by code point, numbers by exact value, false < true,
+    functions / regexes all equal, arrays and objects element by element (objects by key in code-point order, key before value) with the
+    implementation's own answers for the elements, then by length."""
+    t = tname(a)
+    if t != tname(b) or t in ('null', 'datetime'):
+        return None
+    r = im.cmp(a, b)
+    if t == 'string':
+        ca, cb = [ord(c) for c in a], [ord(c) for c in b]
+        want = -1 if ca < cb else (0 if ca == cb else 1)
+    elif t == 'number':
+        inf = float('inf')
+        if a in (inf, -inf) or b in (inf, -inf):
+            want = sign((a > b) - (a < b))
+        else:
+            want = sign(Fraction(a) - Fraction(b))
+    elif t == 'boolean':
+        want = sign(int(a) - int(b))
+    elif t in ('function', 'regex'):
+        want = 0
+    else:
+        if t == 'array':
+            la, lb = list(a), list(b)
+        else:
+            ka = sorted(a, key=lambda k: [ord(c) for c in k])
+            kb = sorted(b, key=lambda k: [ord(c) for c in k])
+            la = [x for k in ka for x in (k, a[k])]
+            lb = [x for k in kb for x in (k, b[k])]
+        want = 0
+        for x, y in zip(la, lb):
+            c = im.cmp(x, y)
+            if c != 0:
+                want = c
+                break
+        if want == 0:
+            want = sign(len(la) - len(lb))
+    return None if r == want else (want, r)
+
+
 def o_spelling(im, a, b):
     a2, b2 = respell(a), respell(b)
     base = im.cmp(a, b)
@@ -557,7 +597,7 @@ def o_last_index_of(im, xs, needle, index):
 
 ORACLES = {
     'reflexive': o_reflexive, 'antisymmetric': o_antisymmetric, 'transitive': o_transitive, 'null-least': o_null_least,
-    'cross-type-by-name': o_cross_type, 'datetime-normalised-order': o_datetime, 'int-float-spelling': o_spelling, 'key-order': o_key_order, 'relops-sign': o_relops,
+    'cross-type-by-name': o_cross_type, 'datetime-normalised-order': o_datetime, 'same-type-order': o_same_type, 'int-float-spelling': o_spelling, 'key-order': o_key_order, 'relops-sign': o_relops,
     'arraySort': o_sort, 'dataSort': o_data_sort, 'mathMinMax': o_minmax, 'arrayIndexOf': o_index_of, 'arrayLastIndexOf': o_last_index_of,
 }
 
@@ -631,6 +671,8 @@ def matrix_stream(ctx, im, st, stream, pool, label):
                     run_oracle(ctx, im, 'cross-type-by-name', pool[i], pool[j])
             if types[i] == 'datetime' and types[j] == 'datetime' and x != sign(norm_us(pool[i]) - norm_us(pool[j])):
                 run_oracle(ctx, im, 'datetime-normalised-order', pool[i], pool[j])
+            if types[i] == types[j]:
+                run_oracle(ctx, im, 'same-type-order', pool[i], pool[j])
     return impl
 
 
@@ -667,7 +709,7 @@ def streams(ctx):
     # ---- cmp: all ordered pairs of a pool, sampled/all triples --------------------------------------------------------
     st = ctx.stream('cmp', 'value_compare on all ordered pairs of a pool of values of all nine types (nesting <= 3, date / naive / aware datetimes, '
                            'int / float / bool, empty containers, key orders): implementation vs model + reflexive, antisymmetric, range, null least, '
-                           'cross-type on every pair; transitivity on triples; non-trivial = two different pool entries')
+                           'cross-type by name, same-type order (one level of the definition unfolded) and datetime normalised order on every pair; transitivity on triples; non-trivial = two different pool entries')
     rng = ctx.rng('cmp')
     pool = build_pool(rng, ctx.scale(300, 700))
     corpus_vals = []
@@ -705,6 +747,8 @@ def streams(ctx):
             x, y = im_inf[i][j], im_inf[j][i]
             if not (is_int(x) and is_int(y) and x in (-1, 0, 1) and x == -y):
                 run_oracle(ctx, im, 'antisymmetric', a, b)
+            run_oracle(ctx, im, 'cross-type-by-name', a, b)
+            run_oracle(ctx, im, 'same-type-order', a, b)
     triples(ctx, im, st, inf_pool, im_inf, list(range(len(inf_pool))))
 
     # other time zones: the datetime part of the pool again with TZ switched (normalisation depends on the local zone)
